@@ -202,7 +202,9 @@ def run_harnesses(names, work, log, extra_args=(), timeout=1200, jobs=8, target=
         if 'VERIFICATION:- SUCCESSFUL' in b:
             st = 'success'
         elif 'VERIFICATION:- FAILED' in b:
-            st = 'failed'
+            # a refutation needs a failed property in CBMC's own result; a solver that was killed or crashed is 'unknown'
+            mf = re.search(r'\*\* (\d+) of \d+ failed', b)
+            st = 'failed' if ('Failed Checks:' in b or (mf and int(mf.group(1)) > 0)) and 'unsupported' not in b.lower().split('failed checks:')[-1][:300] else 'unknown'
         if st == 'success' and re.search(r'cover properties satisfied', b):
             mc = re.search(r'\*\* (\d+) of (\d+) cover properties satisfied', b)
             if mc and mc.group(1) != mc.group(2):
@@ -212,8 +214,8 @@ def run_harnesses(names, work, log, extra_args=(), timeout=1200, jobs=8, target=
     # summary lines in -j mode: "Verification failed for - X" / "Complete - N successfully verified harnesses, M failures"
     for m in re.finditer(r'Verification failed for - ([A-Za-z0-9_:]+)', out):
         hn = m.group(1).split('::')[-1]
-        if hn in res:
-            res[hn]['status'] = 'failed'
+        if hn in res and res[hn]['status'] == 'success':
+            res[hn]['status'] = 'unknown'
     ms = re.search(r'Complete - (\d+) successfully verified harnesses, (\d+) failures, (\d+) total', out)
     if ms and int(ms.group(2)) == 0 and int(ms.group(1)) == len(names) and not timed_out:
         for n in names:
